@@ -39,14 +39,18 @@ type vfC08Case struct {
 // vfFaultConn sits under the stream logger (or directly under the transport) and fails / shortens the k-th write.
 type vfFaultConn struct {
 	net.Conn
-	n     int64
-	k     int64
-	kind  string
-	fired int32
+	n       int64
+	k       int64
+	kind    string
+	fired   int32
+	failAll int32 // when set, every write fails without touching the socket
 }
 
 func (f *vfFaultConn) Write(p []byte) (int, error) {
 	n := atomic.AddInt64(&f.n, 1)
+	if atomic.LoadInt32(&f.failAll) != 0 {
+		return 0, errors.New("vf injected write error (connection dead for writes)")
+	}
 	if f.kind != "" && n == f.k {
 		atomic.StoreInt32(&f.fired, 1)
 		if f.kind == "short" && len(p) > 1 {
